@@ -356,3 +356,8 @@ func zzParserClean() bool {
 	return reflect.DeepEqual(parser.jsonPathParser, jsonPathParser{})
 }
 func zzOpaqueInit(protos []interface{}) { zzOpaque = protos }
+
+func zzParamInt(name string) int {
+	n, _ := strconv.Atoi(zzFx.Params[name])
+	return n
+}
